@@ -3,6 +3,7 @@ package jgen
 import (
 	"math"
 	"reflect"
+	"strings"
 	"time"
 	"unsafe"
 
@@ -292,6 +293,10 @@ func genValue(rt *rapid.T, t reflect.Type, o ValOpts, depth int) Recipe {
 			kr := genValue(rt, t.Key(), o, depth+1)
 			if t.Key().Kind() == reflect.String && rapid.IntRange(0, 2).Draw(rt, "simplekey") > 0 {
 				kr = Recipe{S: []byte(rapid.SampledFrom([]string{"a", "b", "A", "k1", "k2", "", "z", "<", "é", "10", "9"}).Draw(rt, "key"))}
+			}
+			if o.avoid("badutf8keys") && t.Key().Kind() == reflect.String {
+				// distinct keys with invalid UTF-8 can collide once replaced by U+FFFD in the output
+				kr.S = []byte(strings.ToValidUTF8(string(kr.S), "?"))
 			}
 			r.Keys = append(r.Keys, kr)
 			r.Elems = append(r.Elems, genValue(rt, t.Elem(), o, depth+1))
